@@ -47,6 +47,7 @@ func TestMain(m *testing.M) {
 	}
 	vh.Rule("also: a valid packet size announced while the client assembles a message (no panic, no byte of the message lost); responses of 2000..500000 packages (3 million in the thorough tier) drained with NextPackageUntil(nil), with a callback, or package by package: goroutine stacks grow by at most 16 MiB + 2 x bytes received (a frame per package ends at the runtime's stack limit, which kills the process); arbitrary capability types / mask lengths in the responses of an otherwise valid encrypted login")
 	vh.Rule("also: hostile key parameters include well-formed PKIX keys (Ed25519, ECDSA P-256/P-384, RSA), PKCS#1 under other PEM types, a private key, degenerate RSA keys")
+	vh.Rule("also: Channel.Close while the reader is inside a packet holding more packages than the queue takes (the process survives); 11..3000 packets for unknown channels / with impossible header lengths that nobody collects the errors of (no goroutine per error)")
 	vh.Main(m, "C10")
 }
 
